@@ -1,0 +1,10 @@
+//go:build verif
+
+package cmd
+
+import "context"
+
+// ContextWithBackend returns a context carrying the given backend (verification harness only).
+func ContextWithBackend(ctx context.Context, b *Backend) context.Context {
+	return context.WithValue(ctx, backendKey, b)
+}
